@@ -696,19 +696,16 @@ theorem rest_par_eq (ops : Ops F64 R Q U) (sched : Scheduler) (hv : sched.Valid)
       exact h1
     rw [phaseA_par_eq ops sched hv k _ h1, phaseA_par_eq ops sched hv k _ h2]
 
-/-- **parallel_tempering_step = tempering_step** for every valid scheduler (any pool size, any interleaving), as
-soon as the container does not hold exactly one replica (see `one_replica_differs`). -/
+/-- **parallel_tempering_step = tempering_step** for every valid scheduler (any pool size, any interleaving) and
+every number of replicas (the one-replica container included since the repair of finding F30, see
+`one_replica_agrees`). -/
 theorem parTemperingStep_eq (ops : Ops F64 R Q U) (sched : Scheduler) (hv : sched.Valid) (k : Nat) (tc : TC F64 R Q)
-    (hc : CacheValid ops tc) (h1 : tc.graphs.length ≠ 1) :
+    (hc : CacheValid ops tc) :
     parTemperingStep ops sched k tc = temperingStep ops tc := by
   unfold parTemperingStep temperingStep
-  by_cases he : tc.graphs = []
-  · simp [he]
-  · have hne : tc.graphs.isEmpty = false := by simpa using he
-    have hlen : ¬ tc.graphs.length ≤ 1 := by
-      have : tc.graphs.length ≠ 0 := by simpa using he
-      omega
-    simp only [hne, hlen, if_false, Bool.false_eq_true]
+  by_cases hlen : tc.graphs.length ≤ 1
+  · simp only [hlen, if_true]
+  · simp only [hlen, if_false]
     unfold temperingBody
     exact rest_par_eq ops sched hv k _ (cacheLen_ensure ops tc hc)
 
@@ -761,8 +758,7 @@ theorem step_length {ops : Ops F64 R Q U} {sig : Q → H} {eqH : H → H → Boo
 
 /-- the loop invariant of the sampling drivers -/
 def DriverInv (ops : Ops F64 R Q U) (s : LoopState F64 R Q A S) : Prop :=
-  s.acc.length = s.tc.graphs.length ∧ s.states.length = s.tc.graphs.length ∧ CacheValid ops s.tc ∧
-    s.tc.graphs.length ≠ 1
+  s.acc.length = s.tc.graphs.length ∧ s.states.length = s.tc.graphs.length ∧ CacheValid ops s.tc
 
 theorem stepped_graphs (so : SampleOps F64 Q E A S) (sig : Q → H)
     (hts : ∀ t b q, sig (so.timesteps t b q).1 = sig q) (t : Nat) :
@@ -786,7 +782,7 @@ theorem body_eq_and_inv {ops : Ops F64 R Q U} {sig : Q → H} {eqH : H → H →
           swapFreq sampleFreq s ∧
     DriverInv ops (loopBody (fun t σ => σ.map (stepTask so t)) (temperingStep ops) (fun σ => σ.map (sampleTask so))
           swapFreq sampleFreq s) := by
-  obtain ⟨hacc, hst, hcv, hn1⟩ := hi
+  obtain ⟨hacc, hst, hcv⟩ := hi
   obtain ⟨hsig, hlen2⟩ := stepped_graphs so sig hts (min (min s.toSample s.toSwap) s.remaining) s.tc.graphs s.acc hacc
   have hlen1 : (((s.tc.graphs.zip s.acc).map (stepTask so (min (min s.toSample s.toSwap) s.remaining))).map (·.1)).length
       = s.tc.graphs.length := by
@@ -795,7 +791,7 @@ theorem body_eq_and_inv {ops : Ops F64 R Q U} {sig : Q → H} {eqH : H → H →
   have hcv' := cacheValid_of_sigs hs s.tc _ hsig hcv
   have hpar := parTemperingStep_eq ops sched hv k
     { s.tc with graphs := ((s.tc.graphs.zip s.acc).map (stepTask so (min (min s.toSample s.toSwap) s.remaining))).map (·.1) }
-    hcv' (by show List.length _ ≠ 1; rw [hlen1]; exact hn1)
+    hcv'
   have hsl := step_length hs
     { s.tc with graphs := ((s.tc.graphs.zip s.acc).map (stepTask so (min (min s.toSample s.toSwap) s.remaining))).map (·.1) }
     hcv'
@@ -805,7 +801,7 @@ theorem body_eq_and_inv {ops : Ops F64 R Q U} {sig : Q → H} {eqH : H → H →
     simp only [parSection_const _ _ _ (hv 0 k _), parSection_const _ _ _ (hv 3 k _), hpar]
   · unfold loopBody
     simp only
-    refine ⟨?_, ?_, ?_, ?_⟩
+    refine ⟨?_, ?_, ?_⟩
     · simp only [hlen2]
       split
       · rw [hsl]; exact hlen1.symm
@@ -814,13 +810,6 @@ theorem body_eq_and_inv {ops : Ops F64 R Q U} {sig : Q → H} {eqH : H → H →
     · split
       · exact hscv
       · exact hcv'
-    · split
-      · show List.length _ ≠ 1
-        rw [hsl]
-        show List.length _ ≠ 1
-        rw [hlen1]; exact hn1
-      · show List.length _ ≠ 1
-        rw [hlen1]; exact hn1
 
 end Driver
 
@@ -851,7 +840,7 @@ inductive Reachable (ops : Ops F64 R Q U) (sig : Q → H) : TC F64 R Q → Prop
   | new (r : R) : Reachable ops sig (TemperingContainer.new r)
   | add {tc : TC F64 R Q} (q : Q) (beta : F64) : Reachable ops sig tc → Reachable ops sig (addReplica tc q beta)
   | step {tc : TC F64 R Q} : Reachable ops sig tc → Reachable ops sig (temperingStep ops tc)
-  | parStep {tc : TC F64 R Q} (sched : Scheduler) (hv : sched.Valid) (k : Nat) (h1 : tc.graphs.length ≠ 1) :
+  | parStep {tc : TC F64 R Q} (sched : Scheduler) (hv : sched.Valid) (k : Nat) :
       Reachable ops sig tc → Reachable ops sig (parTemperingStep ops sched k tc)
   | update {tc : TC F64 R Q} (g' : List (Q × F64)) (hg : sigs sig g' = sigs sig tc.graphs) :
       Reachable ops sig tc → Reachable ops sig { tc with graphs := g' }
@@ -863,8 +852,8 @@ theorem reachable_cacheValid {ops : Ops F64 R Q U} {sig : Q → H} {eqH : H → 
   | new r => exact cacheValid_new ops r
   | add q beta _ ih => exact cacheValid_add ops _ q beta ih
   | step _ ih => exact step_cacheValid hs _ ih
-  | parStep sched hv k h1 _ ih =>
-    rw [parTemperingStep_eq ops sched hv k _ ih h1]
+  | parStep sched hv k _ ih =>
+    rw [parTemperingStep_eq ops sched hv k _ ih]
     exact step_cacheValid hs _ ih
   | update g' hg _ ih => exact cacheValid_of_sigs hs _ g' hg ih
   | restore _ ih => exact cacheValid_reset ops _
